@@ -23,6 +23,9 @@
 
 #include "c15_fault.h"
 
+// file-static prime table of ArenaHash (the archive member arenahash.o is then not pulled in)
+#include <asmjit/support/arenahash.cpp>
+
 using namespace asmjit;
 
 enum Policy { P_STOP = 0, P_CONT = 1 };
@@ -556,6 +559,71 @@ struct WCompilerArgs : Workload {
   }
 };
 
+// ---- x86 Compiler used twice with CodeHolder::reinit() in between (on_reinit re-adds the RA pass), second result executed ----
+struct WCompilerReinit : Workload {
+  CodeHolder code;
+  x86::Compiler cc;
+  RecHandler eh;
+  JitRuntime* rt = nullptr;
+  ~WCompilerReinit() override { delete rt; }
+
+  // uint32_t f(uint32_t x): n live values, returns sum_i (x + i) * (i + 1)
+  void emit_func(Res& r, int n, int policy) {
+    using namespace x86;
+    FuncNode* f = nullptr;
+    CK(cc.add_func_node(Out(f), FuncSignature::build<uint32_t, uint32_t>()));
+    if (!f) { r.fail(Error::kOutOfMemory, "add_func_node=null"); return; }
+    Gp x = cc.new_gp32("x"); CKH();
+    f->set_arg(0, x);
+    std::vector<Gp> v(n);
+    for (int i = 0; i < n; i++) { v[i] = cc.new_gp32("v%d", i); CKH(); CK(cc.lea(v[i], ptr(x, i))); }
+    Gp acc = cc.new_gp32("acc"); CKH();
+    CK(cc.xor_(acc, acc));
+    for (int i = 0; i < n; i++) { CK(cc.imul(v[i], v[i], i + 1)); }
+    for (int i = 0; i < n; i++) { CK(cc.add(acc, v[i])); }
+    CK(cc.ret(acc));
+    CK(cc.end_func());
+    CKH();
+    CK(cc.finalize());
+    CKH();
+  }
+
+  void run(Res& r, int policy) override {
+    eh.first = Error::kOk; eh.count = 0;
+    policy = P_STOP;
+    if (!rt) rt = new JitRuntime();
+    if (!code.is_initialized()) CKF(code.init(rt->environment(), rt->cpu_features()));
+    code.set_error_handler(&eh);
+    if (!cc.is_initialized()) CKF(code.attach(&cc));
+    emit_func(r, 6, policy);
+    if (r.err != Error::kOk) return;
+    Res tmp;
+    canonical_image(code, tmp, policy);
+    if (tmp.err != Error::kOk) { r = tmp; r.have_bytes = false; return; }
+    CKF(code.reinit());
+    if (!cc.is_initialized()) { r.fail(Error::kInvalidState, "compiler detached by reinit"); return; }
+    emit_func(r, 20, policy);
+    if (r.err != Error::kOk) return;
+    canonical_image(code, r, policy);
+    if (r.err != Error::kOk) { r.have_bytes = false; return; }
+    r.bytes.insert(r.bytes.end(), tmp.bytes.begin(), tmp.bytes.end());
+    typedef uint32_t (*Fn)(uint32_t);
+    Fn fn = nullptr;
+    Error e = rt->add(&fn, &code);
+    if (e != Error::kOk) { r.fail(e, "rt.add"); r.late = e; r.late_stage = "rt.add"; r.have_bytes = false; return; }
+    uint32_t got = fn(1000), want = 0;
+    for (int i = 0; i < 20; i++) want += (1000u + uint32_t(i)) * uint32_t(i + 1);
+    r.exec.assign((uint8_t*)&got, (uint8_t*)&got + 4);
+    r.have_exec = true;
+    if (got != want) r.mon = "compiled function computed " + std::to_string(got) + ", expected " + std::to_string(want);
+    CK(rt->release(fn));
+  }
+  void recover(int rec) override {
+    recover_code(code, rec);
+    if (rt && (rec != 0 || jit_dead(rt))) { delete rt; rt = nullptr; }
+  }
+};
+
 // ---- JitRuntime / JitAllocator --------------------------------------------------------------------------------------------
 struct WJit : Workload {
   JitAllocator::CreateParams params;
@@ -624,11 +692,11 @@ struct WJit : Workload {
   void recover(int rec) override {
     if (!rt) return;
     // a JitAllocator whose own construction failed stays uninitialised by design (every call says kNotInitialized): a new
-    // runtime is needed then. Soft reset is not used here: JitAllocator::reset(kSoft) re-inserts the kept blocks with stale
-    // tree links (use-after-free without any allocation failure; outside C15, reported to the coordinator).
+    // runtime is needed then. rec 0 = soft reset (keeps one block per pool; repaired by 122faea / 062060b), rec 1 = hard reset,
+    // rec 2 = fresh runtime (handled by the caller).
     bool dead = jit_dead(rt);
-    if (rec == 0 && !dead) rt->reset(ResetPolicy::kHard);
-    else { delete rt; rt = nullptr; }
+    if (dead) { delete rt; rt = nullptr; }
+    else rt->reset(rec == 0 ? ResetPolicy::kSoft : ResetPolicy::kHard);
   }
 };
 
@@ -754,6 +822,7 @@ static Workload* make_workload(const std::string& wid) {
   if (wid == "compiler") return new WCompiler(12);
   if (wid == "compiler_big") return new WCompiler(40);
   if (wid == "compiler_args") return new WCompilerArgs();
+  if (wid == "compiler_reinit") return new WCompilerReinit();
   if (wid == "jit") return new WJit(0);
   if (wid == "jit_dual") return new WJit(uint32_t(JitAllocatorOptions::kUseDualMapping));
   if (wid == "jit_pools") return new WJit(uint32_t(JitAllocatorOptions::kUseMultiplePools) | uint32_t(JitAllocatorOptions::kFillUnusedMemory));
@@ -830,6 +899,9 @@ int main(int argc, char** argv) {
     }
     else if (t[0] == "S") {
       run_script(t);
+    }
+    else if (t[0] == "M" && t.size() >= 3) {
+      calc_mod_cmd(t);
     }
     else if (t[0] == "T") {
       dump_tables(t.size() > 1 ? size_t(atoi(t[1].c_str())) : 8);
